@@ -662,6 +662,7 @@ def canon_factor(b, phi, Q, extra=None):
 
 
 TORCH32_KEY = "torch-backend-float32-construction"
+F32_SIZE = 2e-6     # 32 ulp of float32, relative
 
 
 def F32(x):
@@ -998,8 +999,11 @@ def run_repr(case, drv):
                 if n32 is not None:
                     # diagnosed class: torch backend AND an input entry that is not a float32 AND pgmpy's answer is
                     # the model's answer on the float32-rounded inputs
+                    # (pruning drops barren / d-separated CPDs, which no longer sum to one after the rounding, so the
+                    # rounded model is matched only up to float32 rounding size: 32 ulp = 2e-6 relative)
                     ref32 = ref_posterior(drv, n32, Q, ev)
-                    if sum(ref32.values()) != 0 and check_answer(ans, ref32, Q, net, drv, ev, tol) is None:
+                    if sum(ref32.values()) != 0 and (check_answer(ans, ref32, Q, net, drv, ev, tol) is None
+                                                     or check_answer(ans, ref, Q, net, drv, ev, F32_SIZE) is None):
                         fk = TORCH32_KEY
                 return bad("impl!=model", {"engine": engine, "err": err, "rep": rep["nstyle"] + "/" + rep["sstyle"],
                                            "backend": case["backend"]},
@@ -1232,7 +1236,7 @@ def model_table(mod, net, nb):
     return {idx: m_tab[kx] for kx, idx in enumerate(itertools.product(*[range(c) for c in mcards]))}
 
 
-def answer_vs_model(a_h, mod, net, nb, b):
+def answer_vs_model(a_h, mod, net, nb, b, tol=TOL):
     """pgmpy's canonical answer against the extracted model's (scope, table): None or an error string"""
     m_scope = mod[0]
     mtable = model_table(mod, net, nb)
@@ -1242,7 +1246,7 @@ def answer_vs_model(a_h, mod, net, nb, b):
         for idx, p in mtable.items():
             kk = tuple(idx[m_scope.index(v)] for v in Qs)
             want[kk] = want.get(kk, 0) + p
-        return cmp_tables(a_h[2], want, TOL)
+        return cmp_tables(a_h[2], want, tol)
     if a_h[0] == "map":
         got = {}
         for v, st in a_h[1].items():
@@ -1369,7 +1373,8 @@ def _run_history(case, drv):
             n32 = net_f32(net) if case.get("backend") == "torch64" else None
             if n32 is not None:
                 v32 = drv.call_e("c16_history", [nb, net["cards"], model_factors(n32), list(hw[:-1]), qw])
-                if v32[0] == "ok" and answer_vs_model(a_h, v32[1], net, nb, b) is None:
+                if v32[0] == "ok" and (answer_vs_model(a_h, v32[1], net, nb, b) is None
+                                       or answer_vs_model(a_h, mod, net, nb, b, F32_SIZE) is None):
                     fk = TORCH32_KEY
             return bad("impl!=model", dict(where, what="answer of the shared engine", err=err,
                                            backend=case.get("backend")),
